@@ -52,7 +52,23 @@ def lint_r15_tls(repo):
     return out
 
 
-LINTS = {"C06": [lint_r4_lock], "C07": [lint_r4_lock], "C09": [lint_r4_lock], "C18": [lint_r15_tls]}
+def lint_r10_version(repo):
+    """R10 (traceparent_parse): the version check that the unit restates is still `let b"00" = &bytes[0..2] else { return Err }`."""
+    f = "traceparent/src/lib.rs"
+    src = strip_comments(open(os.path.join(repo, f)).read())
+    m = re.search(r"fn\s+try_from_str\b[^{]*\{", src)
+    if not m:
+        return ["R10 premise: %s: fn try_from_str not found" % f]
+    body = src[m.end():m.end() + 4000]
+    out = []
+    if not re.search(r"let\s+version\s*=\s*&\s*bytes\s*\[\s*0\s*\.\.\s*2\s*\]\s*;", body):
+        out.append("R10 premise: %s: `let version = &bytes[0..2];` not found in try_from_str" % f)
+    if not re.search(r'let\s+b"00"\s*=\s*version\s+else\s*\{\s*return\s+Err', body):
+        out.append('R10 premise: %s: `let b"00" = version else { return Err(..) }` not found in try_from_str' % f)
+    return out
+
+
+LINTS = {"C06": [lint_r4_lock], "C07": [lint_r4_lock], "C09": [lint_r4_lock], "C18": [lint_r15_tls, lint_r10_version], "C15": [lint_r10_version]}
 
 
 def run(prop, repo):
